@@ -53,11 +53,12 @@ func IDsU(ids []ID) []uint64 {
 }
 
 // Policy is the JSON-friendly description of an access structure shared with the TLA+ side.
-//   {"kind":"threshold","t":2,"ids":[1,2,3]}
-//   {"kind":"unanimity","ids":[1,2]}
-//   {"kind":"cnf","ids":[1,2,3],"mus":[[1],[2,3]]}        maximal unqualified sets
-//   {"kind":"hier","ids":[..],"levels":[{"t":1,"ids":[1,2]},{"t":3,"ids":[3,4]}]}  cumulative thresholds
-//   {"kind":"gate","ids":[..],"tree":{"t":2,"kids":[{"id":1},{"id":2},{"t":1,"kids":[{"id":3},{"id":1}]}]}}
+//
+//	{"kind":"threshold","t":2,"ids":[1,2,3]}
+//	{"kind":"unanimity","ids":[1,2]}
+//	{"kind":"cnf","ids":[1,2,3],"mus":[[1],[2,3]]}        maximal unqualified sets
+//	{"kind":"hier","ids":[..],"levels":[{"t":1,"ids":[1,2]},{"t":3,"ids":[3,4]}]}  cumulative thresholds
+//	{"kind":"gate","ids":[..],"tree":{"t":2,"kids":[{"id":1},{"id":2},{"t":1,"kids":[{"id":3},{"id":1}]}]}}
 type Policy struct {
 	Kind   string     `json:"kind"`
 	T      int        `json:"t,omitempty"`
